@@ -18,6 +18,10 @@ Tie (every run):
     quarter, with and without through-centre): text map or explicit list -> saveToStream(tryMap) -> load; the saved map must be
     the drawing of the class that READING dispatches to (Lean dispatch / saveLattice / readLattice, function level) and reload
     to the same contents; only drawings the dispatched class itself leaves incomplete count as the known hole findings.
+  * repeated block designs (run_stacks): assemblies that stack one design at several axial positions ([refl, fuel, fuel, fuel, refl],
+    all the same, alternating, random) with per-position xs types / heights / mesh points / material modifications drawn
+    independently, including "everything but one attribute equal"; every block of every assembly against the input at its own
+    index (xsType, xsTypeNum, height, mesh, flags, composition). Lean pairBlocks (repeated_design_keeps_own_xs).
   * third-core cores (run_third): first thirds of 2-4 rings with holes, with / without edge assemblies on the 120-degree line,
     and with a location genuinely outside the first third (refused); Lean loadThird / inFirstThird / onOverlapLine.
   * custom isotopics that carry a density (explicit or implied by number densities) on library solids (UZr, UO2, HT9), fluids and
@@ -884,6 +888,8 @@ def check_reactor(ctx, doc, r, contents, tag, B):
     from fractions import Fraction
     core = r.core
     case = {"tag": tag, "geom": doc["geom"], "symmetry": doc["symmetry"], "n": len(contents)}
+    if doc.get("_yaml"):
+        case["yaml"] = doc["_yaml"]
     got = {tuple(int(v) for v in a.spatialLocator.indices[:2]): a for a in core}
     # placement (model: place)
     names = {a["specifier"]: an for an, a in doc["assems"].items()}
@@ -941,6 +947,13 @@ def check_reactor(ctx, doc, r, contents, tag, B):
             z += Fraction(h)
             if b.p.xsType != xs:
                 fail_few(ctx, "bp-xs-type", "blocks have the specified cross-section types", c3, observed=b.p.xsType, expected=xs)
+            xsnum = int("".join("%02d" % ord(ch) for ch in xs))
+            if int(b.p.xsTypeNum) != xsnum:
+                fail_few(ctx, "bp-xs-type", "blocks have the cross-section type number of the type specified at their axial position", c3,
+                         observed=int(b.p.xsTypeNum), expected=xsnum)
+            if int(b.p.axMesh) != int(ad["mesh"][k]):
+                fail_few(ctx, "bp-axial-mesh-points", "blocks have the axial mesh points specified at their axial position", c3,
+                         observed=int(b.p.axMesh), expected=int(ad["mesh"][k]))
             flagtext = doc.get("blockflags", {}).get(bt, bt)      # an explicit entry replaces the name
             if b.p.flags != flags_of_name(flagtext):
                 fail_few(ctx, "bp-block-flags" + (":explicit-entry" if flagtext != bt else ""),
@@ -1642,6 +1655,101 @@ def run_grids(ctx):
     for kind in ("tips", "full"):
         grid_roundtrip(ctx, kind, None, {c: "P" for c in hex_cells(2) if hexdist(*c) in (0, 2)}, "rings-0-and-2-only")
     flush_grid_q(ctx)
+
+
+# =========================================================================== one block design at several axial positions
+def restack(doc, rng):
+    """Rewrite the assemblies of a generated document so that block designs REPEAT along the stack (e.g. [refl, fuel, fuel, fuel,
+    refl]) and the per-position attributes (xs types, heights, axial mesh points, material modifications) are drawn independently
+    per position with a chosen coincidence pattern: everything but one attribute equal at the repeated positions, or several
+    differing. Heights are common to all assemblies of a core."""
+    bnames = list(doc["blocks"])
+    nb = rng.randint(3, 6)
+    main = rng.choice(bnames)
+    ends = rng.choice(bnames)
+    layout = rng.choice(["ends", "all", "alternate", "random"])
+    if layout == "ends":
+        pattern = [ends] + [main] * (nb - 2) + [ends]
+    elif layout == "all":
+        pattern = [main] * nb
+    elif layout == "alternate":
+        pattern = [main if k % 2 == 0 else ends for k in range(nb)]
+    else:
+        pattern = [rng.choice([main, main, ends]) for _ in range(nb)]
+    differ = rng.choice([("xs",), ("xs",), ("xs", "height"), ("xs", "mesh"), ("xs", "mods"), ("height",), ("mesh",), ("mods",),
+                         ("xs", "height", "mesh", "mods")])
+    hby = {bn: rng.randint(20, 160) / 4.0 for bn in bnames}
+    heights = [hby[bn] for bn in pattern]
+    if "height" in differ:
+        heights[rng.randrange(nb)] += rng.choice([0.25, 1.0, 2.5])
+    doc["assems"] = {an: a for an, a in list(doc["assems"].items())}
+    for an, a in doc["assems"].items():
+        a["blocks"] = list(pattern)
+        a["height"] = list(heights)
+        # cross-section types: independent per position; pairwise distinct when they are what differs
+        a["xs"] = rng.sample("ABCDEFRS", nb) if "xs" in differ else [rng.choice("ABCD")] * nb
+        m0 = rng.randint(1, 3)
+        a["mesh"] = [m0] * nb
+        if "mesh" in differ:
+            a["mesh"][rng.randrange(nb)] = m0 % 3 + 1
+        a.pop("matmods", None)
+        uz = [doc["blocks"][bn]["fuel"]["material"] == "UZr" for bn in pattern]
+        if any(uz) and rng.random() < 0.7:
+            v = rng.choice([0.1, 0.25, 0.5])
+            col = [v if u else "" for u in uz]
+            if "mods" in differ:
+                ks = [k for k, u in enumerate(uz) if u]
+                col[rng.choice(ks)] = rng.choice([x for x in (0.1, 0.25, 0.5, 0.0, "") if x != v])
+            a["matmods"] = {"U235_wt_frac": col}
+            if rng.random() < 0.4:
+                a["matmods"]["by component"] = {"fuel": {"ZR_wt_frac": [rng.choice([0.06, 0.1]) if u else "" for u in uz]}}
+    doc["stack"] = {"pattern": pattern, "differ": list(differ), "layout": layout}
+    return doc
+
+
+def run_stacks(ctx):
+    """Assemblies that stack the same block design at two or more axial positions: every constructed block is compared with the
+    independently read input AT ITS OWN INDEX (xs type and number, height and elevations, mesh points, flags, composition after
+    the material modifications of that index). Model: Blueprint.pairBlocks (theorem repeated_design_keeps_own_xs)."""
+    rng = ctx.rng
+    B = BP(ctx)
+    with common.scratch_dir("c18k-"):
+        for t in range(ctx.pick(14, 120)):
+            doc = restack(gen_doc(rng, rng.choice(["hex", "hex", "hex_corners_up", "cartesian"])), rng)
+            if t == 0:
+                # the plain instance: one design in the middle with equal heights / mesh / modifications, different xs types
+                while not ("xs" in doc["stack"]["differ"] and len(doc["stack"]["differ"]) == 1 and doc["stack"]["layout"] == "ends" and len(doc["stack"]["pattern"]) >= 5):
+                    doc = restack(gen_doc(rng, "hex"), rng)
+            text_map = lattice_text(doc) if doc["use_map"] else None
+            if doc["geom"] == "cartesian" and text_map is None:
+                continue
+            text = to_yaml(doc, text_map)
+            contents = independent_contents(ctx, doc, text_map, None)
+            tag = f"stack#{t}:{doc['stack']['layout']}:{'+'.join(doc['stack']['differ'])} differ"
+            try:
+                r = build(text)
+            except Exception as e:
+                fail_few(ctx, "bp-wellformed-refused", "a well-formed blueprint builds", {"tag": tag, "yaml": text}, observed=f"{type(e).__name__}: {e}"[:300])
+                continue
+            doc["_yaml"] = text
+            check_reactor(ctx, doc, r, contents, tag, B)
+            # every instance of every design (check_reactor looks at one instance per design in full): xs / mesh / height per index
+            names = {a["specifier"]: an for an, a in doc["assems"].items()}
+            for a in r.core:
+                ad = doc["assems"].get(a.getType())
+                if ad is None:
+                    continue
+                for k, b in enumerate(a):
+                    want = (ad["blocks"][k], ad["xs"][k], int("".join("%02d" % ord(ch) for ch in ad["xs"][k])), ad["height"][k], ad["mesh"][k])
+                    got = (b.getType(), b.p.xsType, int(b.p.xsTypeNum), b.getHeight(), int(b.p.axMesh))
+                    if got != want:
+                        fail_few(ctx, "bp-xs-type" if got[1:3] != want[1:3] else "bp-block-attributes-by-position",
+                                 "every block carries the attributes given for ITS axial position (also when the design is repeated)",
+                                 {"tag": tag, "design": a.getType(), "block": k, "pattern": ad["blocks"], "xs types": ad["xs"], "yaml": text},
+                                 observed=list(got), expected=list(want))
+            ctx.count(f"stacked documents built ({doc['stack']['layout']}, differing: {'+'.join(doc['stack']['differ'])})")
+            ctx.case(("stack", tag, text), nontrivial=True, sample={"tag": tag, "pattern": doc["stack"]["pattern"]} if t < 2 else None)
+    _flush_bp(ctx, B)
 
 
 # =========================================================================== third-core maps, edge assemblies
@@ -2405,6 +2513,7 @@ def run(ctx):
         run_grids(ctx)
         run_order(ctx)
         run_third(ctx)
+        run_stacks(ctx)
         run_blueprints(ctx)
         run_flags(ctx)
         run_isotopics(ctx)
@@ -2519,6 +2628,22 @@ def replay(ctx, payload):
             for f in sub.failures:
                 if f.key == payload.get("key") or f.key not in known:
                     res.append({"key": f.key, "observed": f.observed, "expected": f.expected})
+        elif "yaml" in case and str(payload.get("key", "")) in ("bp-xs-type", "bp-axial-mesh-points", "bp-block-attributes-by-position"):
+            # per-position attributes against an independent reading of the recorded YAML
+            from ruamel.yaml import YAML
+            y = YAML(typ="safe").load(case["yaml"])
+            with common.scratch_dir("c18r-"):
+                r = build(case["yaml"])
+                for a in r.core:
+                    ad = y["assemblies"].get(a.getType())
+                    if not ad:
+                        continue
+                    got = [(b.p.xsType, int(b.p.xsTypeNum), int(b.p.axMesh), b.getHeight()) for b in a]
+                    want = [(x, int("".join("%02d" % ord(ch) for ch in x)), int(m_), float(h_))
+                            for x, m_, h_ in zip(ad["xs types"], ad["axial mesh points"], ad["height"])]
+                    if got != want:
+                        res.append({"design": a.getType(), "built": got, "specified": want})
+                        break
         elif "yaml" in case and str(payload.get("key", "")).startswith("bp-custom-density"):
             res += replay_custom_density(payload, case)
         elif "yaml" in case and "systems:" not in case["yaml"]:
